@@ -54,7 +54,7 @@ Theorem run_config_file_eq_entries : forall NM w w' i e,
   lookup (config_path w i) (w_fs w) = Some (FFile (render_config e)) ->
   lookup (config_path w i) (w_fs w') = Some (FConfig e) ->
   (forall op, load w i = inr op ->
-     (op_db op = [] \/ config_path w i <> op_db op) /\ config_path w i <> op_log op) ->
+     (op_db op = dev_null \/ config_path w i <> op_db op) /\ config_path w i <> op_log op) ->
   (forall f, i_cmd i = CLint f -> config_path w i <> f) ->
   run NM w' i = run NM w i.
 Proof. exact ConfigLoad.run_config_file_eq_entries. Qed.
@@ -66,7 +66,7 @@ Print Assumptions run_config_file_eq_entries.
 Theorem settings_precedence_text : forall w i op data f,
   lookup (config_path w i) (w_fs w) = Some (FFile data) -> parse_config data = CfgOk f ->
   load w i = inr op ->
-  op_db op = (if i_no_database i then []
+  op_db op = (if i_no_database i then dev_null
               else or_default (first_some [i_f_db i; i_e_db i; file_string (cf_db f)]) default_db) /\
   op_log op = or_default (first_some [i_f_log i; i_e_log i; file_string (cf_log f)]) default_log /\
   op_fmt op = or_default (first_some [i_f_fmt i; i_e_fmt i; file_string (cf_fmt f)]) default_fmt /\
@@ -74,7 +74,7 @@ Theorem settings_precedence_text : forall w i op data f,
   exists toks, tokenize (op_fmt op) = Some toks /\
     match i_f_today i with
     | Some s => exists c, parse_date toks s = Some c /\ op_now op = time_of_civil c
-    | None => op_now op = or_default (first_some [cf_now f]) (w_clock w)
+    | None => op_now op = time_of_civil (civ (or_default (first_some [cf_now f]) (w_clock w)))
     end.
 Proof. exact ConfigLoad.settings_precedence_text. Qed.
 Print Assumptions settings_precedence_text.
@@ -85,7 +85,7 @@ Theorem settings_precedence_rendered : forall w i op e,
   cfg_plain e = true ->
   lookup (config_path w i) (w_fs w) = Some (FFile (render_config e)) ->
   load w i = inr op ->
-  op_db op = (if i_no_database i then []
+  op_db op = (if i_no_database i then dev_null
               else or_default (first_some [i_f_db i; i_e_db i; file_string (ce_db e)]) default_db) /\
   op_log op = or_default (first_some [i_f_log i; i_e_log i; file_string (ce_log e)]) default_log /\
   op_fmt op = or_default (first_some [i_f_fmt i; i_e_fmt i; file_string (ce_fmt e)]) default_fmt /\
@@ -93,7 +93,7 @@ Theorem settings_precedence_rendered : forall w i op e,
   exists toks, tokenize (op_fmt op) = Some toks /\
     match i_f_today i with
     | Some s => exists c, parse_date toks s = Some c /\ op_now op = time_of_civil c
-    | None => op_now op = or_default (first_some [ce_now e]) (w_clock w)
+    | None => op_now op = time_of_civil (civ (or_default (first_some [ce_now e]) (w_clock w)))
     end.
 Proof. exact ConfigLoad.settings_precedence_rendered. Qed.
 Print Assumptions settings_precedence_rendered.
